@@ -93,6 +93,59 @@ mod h {
         }
     }
 
+    /// cheapest model with pairwise distinct, non-zero derivatives of every order the State layer requests:
+    /// A = V^3 T^3 N0^2 N1^2 (one monomial). Used for the getter-level history harnesses (C11), where three states
+    /// and four evaluations per harness made the 14-monomial model too expensive for CBMC's symbolic execution.
+    pub struct MonoEos;
+    pub const MEXP: [i32; 4] = [3, 3, 2, 2];
+    impl Components for MonoEos {
+        fn components(&self) -> usize {
+            2
+        }
+        fn subset(&self, _: &[usize]) -> Self {
+            unimplemented!()
+        }
+    }
+    impl Residual for MonoEos {
+        fn compute_max_density(&self, _: &Array1<f64>) -> f64 {
+            1.0
+        }
+        fn residual_helmholtz_energy_contributions<D: DualNum<f64> + Copy + ScalarOperand>(
+            &self,
+            s: &StateHD<D>,
+        ) -> Vec<(String, D)> {
+            let (v, t, n0, n1) = (s.volume, s.temperature, s.moles[0], s.moles[1]);
+            // beta A = A / T = V^3 T^2 N0^2 N1^2
+            let a = v * v * v * t * t * n0 * n0 * n1 * n1;
+            vec![(String::new(), a)]
+        }
+    }
+    /// closed-form derivative of V^3 T^3 N0^2 N1^2 at X
+    pub fn dmono(o: [u32; 4]) -> f64 {
+        let mut m = 1.0;
+        for j in 0..4 {
+            let e = MEXP[j];
+            if (e as u32) < o[j] {
+                return 0.0;
+            }
+            m *= falling(e, o[j]);
+            for _ in 0..(e - o[j] as i32) {
+                m *= X[j];
+            }
+        }
+        m
+    }
+    pub fn mono_state() -> State<MonoEos> {
+        let eos = Arc::new(MonoEos);
+        State::new_nvt(
+            &eos,
+            Temperature::from_reduced(X[1]),
+            Volume::from_reduced(X[0]),
+            &Moles::from_reduced(arr1(&[X[2], X[3]])),
+        )
+        .unwrap()
+    }
+
     fn falling(e: i32, o: u32) -> f64 {
         let mut f = 1.0;
         for i in 0..o as i32 {
@@ -233,6 +286,8 @@ mod h {
         Some(s) => (s.as_bytes()[0] - b'0') as usize,
         None => 2,
     };
+    /// symbolic coefficients per polynomial in the selector harnesses (three getter evaluations each)
+    const NSEL: usize = if NS < 2 { NS } else { 2 };
     res_getter!(c01_pressure_res, NS, |s, c| g!(s.pressure(Contributions::Residual), -dpoly(&c, ord(1, 0, 0, 0))));
     res_getter!(c01_residual_entropy, NS, |s, c| g!(s.residual_entropy(), -dpoly(&c, ord(0, 1, 0, 0))));
     res_getter!(c01_dp_dv_res, NS, |s, c| g!(s.dp_dv(Contributions::Residual), -dpoly(&c, ord(2, 0, 0, 0))));
@@ -300,8 +355,8 @@ mod h {
             #[kani::stub(std::hash::RandomState::new, fixed_random_state)]
             #[kani::unwind(16)]
             fn $name() {
-                let c = coeffs(2, &PRIMES);
-                let ci = coeffs(2, &IDEAL);
+                let c = coeffs(NSEL, &PRIMES);
+                let ci = coeffs(NSEL, &IDEAL);
                 let $s = state(c, ci);
                 let sg: f64 = $sign;
                 let $k = Contributions::Total;
@@ -358,63 +413,55 @@ mod h {
     // ------------------------------------------------------------------------------------------
     /// (value, expected) of getter number `which` for component index i
     fn getter(s: &State<PolyEos>, c: &[f64; K], which: u8, i: usize) -> (f64, f64) {
+        getter_g(s, &|o| dpoly(c, o), which, i)
+    }
+    fn getter_g<E: Residual>(s: &State<E>, d: &dyn Fn([u32; 4]) -> f64, which: u8, i: usize) -> (f64, f64) {
+        let c = ();
+        let _ = c;
         match which {
-            0 => g!(s.residual_helmholtz_energy(), dpoly(c, ord(0, 0, 0, 0))),
-            1 => g!(s.pressure(Contributions::Residual), -dpoly(c, ord(1, 0, 0, 0))),
-            2 => g!(s.residual_entropy(), -dpoly(c, ord(0, 1, 0, 0))),
-            3 => ga!(s.residual_chemical_potential(), i, dpoly(c, dn(i))),
-            4 => g!(s.dp_dv(Contributions::Residual), -dpoly(c, ord(2, 0, 0, 0))),
-            5 => g!(s.ds_res_dt(), -dpoly(c, ord(0, 2, 0, 0))),
-            6 => g!(s.dp_dt(Contributions::Residual), -dpoly(c, ord(1, 1, 0, 0))),
-            7 => ga!(s.dp_dni(Contributions::Residual), i, -dpoly(c, add(ord(1, 0, 0, 0), dn(i)))),
-            8 => ga!(s.dmu_res_dt(), i, dpoly(c, add(ord(0, 1, 0, 0), dn(i)))),
-            9 => ga!(s.dmu_dni(Contributions::Residual), [i, 1 - i], dpoly(c, add(dn(i), dn(1 - i)))),
-            10 => ga!(s.dmu_dni(Contributions::Residual), [i, i], dpoly(c, add(dn(i), dn(i)))),
-            11 => g!(s.d2p_dv2(Contributions::Residual), -dpoly(c, ord(3, 0, 0, 0))),
-            _ => g!(s.d2s_res_dt2(), -dpoly(c, ord(0, 3, 0, 0))),
+            0 => g!(s.residual_helmholtz_energy(), d(ord(0, 0, 0, 0))),
+            1 => g!(s.pressure(Contributions::Residual), -d(ord(1, 0, 0, 0))),
+            2 => g!(s.residual_entropy(), -d(ord(0, 1, 0, 0))),
+            3 => ga!(s.residual_chemical_potential(), i, d(dn(i))),
+            4 => g!(s.dp_dv(Contributions::Residual), -d(ord(2, 0, 0, 0))),
+            5 => g!(s.ds_res_dt(), -d(ord(0, 2, 0, 0))),
+            6 => g!(s.dp_dt(Contributions::Residual), -d(ord(1, 1, 0, 0))),
+            7 => ga!(s.dp_dni(Contributions::Residual), i, -d(add(ord(1, 0, 0, 0), dn(i)))),
+            8 => ga!(s.dmu_res_dt(), i, d(add(ord(0, 1, 0, 0), dn(i)))),
+            9 => ga!(s.dmu_dni(Contributions::Residual), [i, 1 - i], d(add(dn(i), dn(1 - i)))),
+            10 => ga!(s.dmu_dni(Contributions::Residual), [i, i], d(add(dn(i), dn(i)))),
+            11 => g!(s.d2p_dv2(Contributions::Residual), -d(ord(3, 0, 0, 0))),
+            _ => g!(s.d2s_res_dt2(), -d(ord(0, 3, 0, 0))),
         }
     }
-    /// one harness per (predecessor h, final getter g); component indices and the clone position symbolic
-    macro_rules! hist2 {
+    /// one harness per (predecessor h, final getter g): g after h on the same state, on a clone taken before h and
+    /// on a clone taken after h must all equal the closed form. Everything is concrete (generic-position
+    /// coefficients, component indices i = 0 for h, j = 1 for g): with symbolic indices or clone position one harness
+    /// did not finish in 45 min; concretely CBMC decides each history in minutes, so ALL ordered pairs can be run.
+    macro_rules! hist2c {
         ($name:ident, $h:expr, $g:expr) => {
             #[kani::proof]
             #[kani::stub(std::hash::RandomState::new, fixed_random_state)]
             #[kani::unwind(16)]
             fn $name() {
-                let s = state(PRIMES, IDEAL);
-                let (i, j) = (any_comp(), any_comp());
-                let clone_before: bool = kani::any();
+                let s = mono_state();
                 let pre = s.clone();
-                let _ = getter(&s, &PRIMES, $h, i);
+                let _ = getter_g(&s, &dmono, $h, 0);
                 let post = s.clone();
-                let t = if clone_before { &pre } else { &post };
-                let (a, wa) = getter(&s, &PRIMES, $g, j);
+                let (a, wa) = getter_g(&s, &dmono, $g, 1);
                 assert!(same(a, wa));
-                let (b, wb) = getter(t, &PRIMES, $g, j);
+                let (b, wb) = getter_g(&pre, &dmono, $g, 1);
                 assert!(same(b, wb));
-                kani::cover!(clone_before && i != j);
+                let (c, wc) = getter_g(&post, &dmono, $g, 1);
+                assert!(same(c, wc));
+                kani::cover!(true);
                 std::mem::forget(s);
                 std::mem::forget(pre);
                 std::mem::forget(post);
             }
         };
     }
-    // predecessors that fill each cache method; finals that read a by-product key
-    hist2!(c11_h_dpdv_then_pressure, 4, 1);
-    hist2!(c11_h_dpdni_then_mu, 7, 3);
-    hist2!(c11_h_dpdni_then_pressure, 7, 1);
-    hist2!(c11_h_dmudt_then_entropy, 8, 2);
-    hist2!(c11_h_dmudni_then_mu, 9, 3);
-    hist2!(c11_h_d2pdv2_then_dpdv, 11, 4);
-    hist2!(c11_h_d2sdt2_then_dsdt, 12, 5);
-    hist2!(c11_h_dsdt_then_entropy, 5, 2);
-    hist2!(c11_h_dpdt_then_entropy, 6, 2);
-    hist2!(c11_h_dpdt_then_pressure, 6, 1);
-    hist2!(c11_h_mu_then_a, 3, 0);
-    hist2!(c11_h_dmudni_diag_then_mixed, 10, 9);
-    hist2!(c11_h_dmudni_mixed_then_diag, 9, 10);
-    hist2!(c11_h_dpdv_then_d2pdv2, 4, 11);
-    hist2!(c11_h_pressure_then_dpdni, 1, 7);
+    include!("c11_pairs.rs");
 
     include!("c03.rs");
 }
